@@ -208,7 +208,7 @@ func (f *qfilter) coq() string {
 	panic("op")
 }
 
-var qPatterns = []string{"a%", "%b", "%a%", "ab", "a%c", "%", "%%", "", "A%", "%B%", "b", "a%b%c"}
+var qPatterns = []string{"a%", "%b", "%a%", "ab", "a%c", "%", "%%", "", "A%", "%B%", "b", "a%b%c", "A%b", "a%B", "A%C"}
 
 func genCond(r *Rng, kind string) qcond {
 	switch kind {
